@@ -428,16 +428,15 @@ Qed.
 Theorem check_regex_history_independent : forall st1 st2 pat fl,
   fst (check_regex st1 pat fl) = fst (check_regex st2 pat fl).
 Proof.
-  intros. unfold check_regex. destruct (validate_flags fl); [reflexivity|].
-  destruct fl as [|c fl]; [apply both_modes_indep|].
-  pose proof (check_pattern_indep st1 st2 pat (existsb (N.eqb 117) (c :: fl))) as H.
+  intros st1 st2 pat [fl|]; unfold check_regex; [|apply both_modes_indep].
+  destruct (validate_flags fl); [reflexivity|].
+  pose proof (check_pattern_indep st1 st2 pat (existsb (N.eqb 117) fl)) as H.
   destruct (check_pattern st1 pat _) as [t1|m1 t1|p1|], (check_pattern st2 pat _) as [t2|m2 t2|p2|];
-    cbn in H; try discriminate; cbn [fst]; try reflexivity; try congruence.
-  apply both_modes_indep.
+    cbn in H; try discriminate; cbn [fst]; try reflexivity; congruence.
 Qed.
 
 (* a file's worth of regexes on one validator = each regex on a fresh validator (until a panic ends the lint) *)
-Definition decide (pat fl : str) : decision := fst (check_regex init_vst pat fl).
+Definition decide (pat : str) (fl : option str) : decision := fst (check_regex init_vst pat fl).
 Fixpoint stop_after (ds : list decision) : list (option decision) :=
   match ds with
   | [] => []
